@@ -169,3 +169,16 @@ package flows
 //@   ensures[imported-exits] result1 == nil ==> len(result0.ImportedBridgeExits) == len(certParams.Claims) && forall(k, 0, len(certParams.Claims), result0.ImportedBridgeExits[k] != nil && result0.ImportedBridgeExits[k].BridgeExit != nil && result0.ImportedBridgeExits[k].BridgeExit.TokenInfo != nil && result0.ImportedBridgeExits[k].BridgeExit.LeafType == ite(certParams.Claims[k].IsMessage, 1, 0) && result0.ImportedBridgeExits[k].BridgeExit.TokenInfo.OriginNetwork == certParams.Claims[k].OriginNetwork && result0.ImportedBridgeExits[k].BridgeExit.TokenInfo.OriginTokenAddress == certParams.Claims[k].OriginAddress && result0.ImportedBridgeExits[k].BridgeExit.DestinationNetwork == certParams.Claims[k].DestinationNetwork && result0.ImportedBridgeExits[k].BridgeExit.DestinationAddress == certParams.Claims[k].DestinationAddress && result0.ImportedBridgeExits[k].BridgeExit.Amount == certParams.Claims[k].Amount)
 //@   ensures[metadata-encodes-range] result1 == nil ==> hb(result0.Metadata)[0] == 2 && beVal(hb(result0.Metadata), 1, 8) == certParams.FromBlock && beVal(hb(result0.Metadata), 9, 4) == (certParams.ToBlock - certParams.FromBlock + 18446744073709551616) % 4294967296 && beVal(hb(result0.Metadata), 13, 4) == certParams.CreatedAt && hb(result0.Metadata)[17] == certParams.CertificateType
 //@   ensures[leaf-count] result1 == nil ==> result0.L1InfoTreeLeafCount == certParams.L1InfoTreeLeafCount
+
+// ---- global exit root of a claim (C09): GER = keccak(mainnet exit root ‖ rollup exit root), checked for every claim
+//@ func calculateGER
+//@   props C09
+//@   ensures[ger] result == H(mainnetExitRoot, rollupExitRoot)
+
+//@ func (f *baseFlow) verifyClaimGERs
+//@   props C09
+//@   modifies nothing
+//@   ensures[all-consistent] result == nil ==> forall(k, 0, len(claims), claims[k].GlobalExitRoot == H(claims[k].MainnetExitRoot, claims[k].RollupExitRoot))
+//@   ensures[mismatch-refused] (exists(k, 0, len(claims), claims[k].GlobalExitRoot != H(claims[k].MainnetExitRoot, claims[k].RollupExitRoot))) ==> result != nil
+//@   loop 0 invariant 0 <= rangeindex + 1 && rangeindex + 1 <= len(claims)
+//@   loop 0 invariant forall(k, 0, rangeindex + 1, claims[k].GlobalExitRoot == H(claims[k].MainnetExitRoot, claims[k].RollupExitRoot))
